@@ -59,6 +59,16 @@ func (e *Env) sub() *Env {
 func (e *Env) resolveType(text string) (types.Type, string) {
 	vc := e.ex.vc
 	text = strings.TrimSpace(text)
+	if strings.HasPrefix(text, "typeof(") && strings.HasSuffix(text, ")") {
+		// the Go type of a name in scope (needed for instantiated generic types)
+		sub := e.sub()
+		sub.errs = nil
+		v := sub.ident(text[7 : len(text)-1])
+		if len(sub.errs) == 0 && v.Ty != nil {
+			return v.Ty, vc.sorts.SortOf(v.Ty)
+		}
+		return nil, ""
+	}
 	switch text {
 	case "int":
 		return types.Typ[types.Int], SInt
@@ -846,6 +856,38 @@ func (e *Env) call(n ECall) TVal {
 			return e.errf("declaredConst: no constant of type %s", ts.V)
 		}
 		return TVal{T: Term{or(alts...), SBool}}
+	case "with":
+		// with(structValue, "Field", v): the struct value with one field replaced
+		if !argc(3) {
+			return TVal{}
+		}
+		base := e.tr(n.Args[0])
+		fs, ok := n.Args[1].(EStr)
+		if !ok {
+			return e.errf("with needs a field name literal")
+		}
+		v := e.tr(n.Args[2])
+		si := vc.sorts.StructInfo(base.T.Sort)
+		if si == nil {
+			return e.errf("with: %s is not a struct value", exprString(n.Args[0]))
+		}
+		found := false
+		parts := []string{"mk_" + base.T.Sort}
+		for _, f := range si.fields {
+			if f.name == fs.V {
+				found = true
+				if f.sort != v.T.Sort {
+					return e.errf("with: field %s has sort %s, value has %s", fs.V, f.sort, v.T.Sort)
+				}
+				parts = append(parts, v.T.S)
+			} else {
+				parts = append(parts, vc.sel(base.T.Sort, f.name, base.T.S))
+			}
+		}
+		if !found {
+			return e.errf("with: no field %s", fs.V)
+		}
+		return TVal{T: Term{"(" + strings.Join(parts, " ") + ")", base.T.Sort}, Ty: base.Ty}
 	case "anyof":
 		// the interface value holding x (boxed with x's static Go type)
 		if !argc(1) {
